@@ -25,7 +25,7 @@ def main():
     sid = sys.argv[1]
     d = os.path.join(VERIF, "seeded", sid)
     meta = json.load(open(os.path.join(d, "meta.json")))
-    props = sys.argv[2:] or [meta["property"]]
+    props = [a for a in sys.argv[2:] if not a.startswith("--")] or [meta["property"]]
     wt = "/tmp/seed-%s-%d" % (sid, os.getpid())
     env = dict(os.environ, GOPROXY="off", GOFLAGS="-mod=mod")
     env.pop("GOSUMDB", None)
@@ -50,6 +50,23 @@ def main():
             res["demo_fails_with_change"] = r.returncode != 0
             sh(["rm", "-rf", tmpdemo])
         os.remove(os.path.join(wt, "goderive.seeded"))
+        if "--verify" in sys.argv or "confirmed" not in meta:
+            # demonstration passes on the unchanged tree
+            base = "/tmp/seed-base-goderive-%d" % os.getpid()
+            sh(["go", "build", "-o", base, "."], cwd="/repo", env=dict(env, GOFLAGS=""))
+            if os.path.exists(demo):
+                tmpdemo = wt + "-demo0"
+                sh(["cp", "-r", os.path.join(d, "demo"), tmpdemo])
+                r0 = sh(["bash", "run.sh", base], cwd=tmpdemo, env=env, timeout=600)
+                res["demo_passes_without"] = r0.returncode == 0
+                sh(["rm", "-rf", tmpdemo])
+            os.remove(base)
+            # the existing test suite still passes with the change (gopath2 fails to set up on the unchanged tree too)
+            t = sh(["go", "test", "-mod=mod", "-vet=off", "-count=1", "./..."], cwd=wt, env=env, timeout=1800)
+            bad = [l for l in t.stdout.splitlines() if (l.startswith("FAIL") or l.startswith("--- FAIL")) and "gopath2" not in l and l.strip() != "FAIL"]
+            res["tests_pass_with_change"] = not bad
+            res["test_failures"] = bad[:5]
+            sh(["git", "-C", wt, "clean", "-fdq"])
         for p in props:
             t = time.time()
             r = sh([os.path.join(VERIF, "check"), p], cwd=VERIF, env=dict(env, VERIF_REPO=wt), timeout=3600)
